@@ -36,7 +36,7 @@ type collectorIn struct {
 //
 // Every worker sends exactly one acknowledgement (A2); the caller receives exactly
 // len(payload) of them, so it leaves the loop when and only when every item is mapped and its
-// result reduced or its error recorded (join, A6), no worker stays blocked (no leak), and
+// result reduced or its error handed to the extension (join, A6), no worker stays blocked (no leak), and
 // reductions are serial because only the caller's goroutine reduces (A3). acc and errs are
 // values of the caller's goroutine only (A8).
 func (a *amr) collectorForm(in *collectorIn) {
@@ -298,7 +298,7 @@ func (a *amr) collectorForm(in *collectorIn) {
 		}
 	}
 	if goodE {
-		a.ok("A4", "err-case", sel, "receive → errs = extend(errs, err), carried to the next iteration")
+		a.ok("A4", "err-case", sel, "receive → errs = extend(errs, err), carried to the next iteration (how many entries the extension adds for the error — none for an empty ErrorList — is not checked)")
 	}
 	// ---- A8: the results are the loop-carried values at the loop exit
 	okRet := true
